@@ -8,6 +8,7 @@ import re
 import socket
 
 from common import Case, W, hexs, optint, plist, tf, errname, value_classes, rand_value
+import common
 import platform_cases
 from props.c01 import (ref_strict4, ref_rfc4291, ref_quad, ref_ntop6, ref_pyint10, std_parse, edits, NEAR4, NEAR6)
 
@@ -302,6 +303,27 @@ def _show(n):
     return '%d:%d/%d' % (n.version, n.value, n.prefixlen)
 
 
+def _bystanders(s):
+    """the pure validity helpers asked about the same text (and its address part) first, under other flags:
+    must not colour the parse that follows"""
+    import zlib
+    import netaddr
+    if not isinstance(s, str):
+        return
+    h = zlib.crc32(s.encode('utf-8', 'replace'))
+    if h & 1:
+        for t in (s, s.split('/')[0]):
+            for f in ((0, 1, 2), (2, 0), (1,), (2, 1, 0))[(h >> 1) % 4]:
+                try:
+                    netaddr.valid_ipv4(t, f)
+                except Exception:
+                    pass
+            try:
+                netaddr.valid_ipv6(t)
+            except Exception:
+                pass
+
+
 def impl(c):
     if c.platform:
         return platform_cases.impl(c)
@@ -320,10 +342,16 @@ def impl(c):
             elif form == 'copyN':
                 arg = IPNetwork((v, p), version=ver)
             else:
-                arg = IPAddress(v, ver)
-            return _show(IPNetwork(arg, implicit_prefix=implicit, version=pver, flags=flags))
+                arg = common.make_addr(ver, v)
+            if form == 'copyN':
+                arg = common.make_net(ver, v, p)
+            _bystanders(arg)
+            n = IPNetwork(arg, implicit_prefix=implicit, version=pver, flags=flags)
+            common.disturb(arg)           # a copy-constructed network does not follow its source
+            return _show(n)
         if op == 'raw':
             _, s, implicit, ver, flags = a
+            _bystanders(s)
             return _show(IPNetwork(s, implicit_prefix=implicit, version=ver, flags=flags))
         if op == 'tuple':
             _, v, p, ver, flags = a
